@@ -67,6 +67,11 @@ type Picker interface {
 // Heartbeat is bumped at every scheduler step; the wall-clock watchdog reads it.
 var Heartbeat atomic.Uint64
 
+// DrainingSince is non-zero while a run that exceeded its step bound is
+// being drained: the root is expected to return at once; if it keeps running, the
+// watchdog need not wait for its full limit.
+var DrainingSince atomic.Int64
+
 // Sched is the cooperative scheduler of one run.
 type Sched struct {
 	mu      sync.Mutex
@@ -179,6 +184,7 @@ func (s *Sched) Run(t *testing.T, root func(), picker Picker, maxSteps int) (res
 		s.mu.Lock()
 		s.active = false
 		s.mu.Unlock()
+		DrainingSince.Store(0)
 	}()
 	synctest.Test(t, func(t *testing.T) {
 		s.mu.Lock()
@@ -222,6 +228,7 @@ func (s *Sched) Run(t *testing.T, root func(), picker Picker, maxSteps int) (res
 			}
 			if s.Steps >= maxSteps {
 				res.StepLimit = true
+				DrainingSince.Store(1) // a flag: time inside the bubble is fake; the watchdog stamps it
 				s.mu.Lock()
 				s.drain = true
 				s.mu.Unlock()
